@@ -62,6 +62,8 @@ pub enum Dev {
     NonPayer(i64),
     /// non-fee-payer gets nothing
     NonPayerZero,
+    /// each side is paid what the other side is owed
+    SwapValues,
     /// fee at this rate (sat per kw x estimated weight), paid by the funder
     FeeRate(u64),
     /// fee in sat
@@ -111,6 +113,9 @@ pub struct Case {
     pub upfront: u8,
     pub phase1: bool,
     pub devs: Vec<Dev>,
+    /// under the chain-aware validator (funding confirmed)
+    #[serde(default)]
+    pub onchain: bool,
 }
 
 fn pol() -> lightning_signer::policy::simple_validator::SimplePolicy {
@@ -204,6 +209,7 @@ fn run_case(case: &Case) -> Res {
     let mut r = Res::default();
     let mut v = SetupV::basic(case.anchors, case.outbound);
     v.upfront = case.upfront;
+    v.onchain = case.onchain;
     let mut cfg = WorldCfg::default();
     cfg.policy = Some(pol());
     // allowlist at setup time: the foreign script 1 (used as upfront script and as "allowlisted")
@@ -302,7 +308,10 @@ fn run_case(case: &Case) -> Res {
             return r;
         }
     };
-    let (mut to_holder, to_cp) = if payer_is_holder { (payer, nonpayer) } else { (nonpayer, payer) };
+    let (mut to_holder, mut to_cp) = if payer_is_holder { (payer, nonpayer) } else { (nonpayer, payer) };
+    if case.devs.contains(&Dev::SwapValues) {
+        std::mem::swap(&mut to_holder, &mut to_cp);
+    }
     if holder_script.is_none() {
         // no holder output at all: the holder's share becomes fee
         to_holder = 0;
@@ -544,6 +553,7 @@ fn alphabet(case: &Case) -> Vec<Dev> {
         v.push(Dev::NonPayer(d));
     }
     v.push(Dev::NonPayerZero);
+    v.push(Dev::SwapValues);
     for r in [p.min_feerate_per_kw as u64 - 2, p.min_feerate_per_kw as u64, p.max_feerate_per_kw as u64, p.max_feerate_per_kw as u64 + 2, 0] {
         v.push(Dev::FeeRate(r));
     }
@@ -586,7 +596,11 @@ fn all_cases(tier: Tier) -> (Vec<Case>, Vec<Case>) {
                 }
                 for upfront in 0..3u8 {
                     for phase1 in [false, true] {
-                        bases.push(Case { st: *st, outbound, anchors, upfront, phase1, devs: vec![] });
+                        bases.push(Case { st: *st, outbound, anchors, upfront, phase1, devs: vec![], onchain: false });
+                        // the same under the chain-aware validator (quick: two states, no upfront script)
+                        if !anchors && (tier == Tier::Thorough || (upfront == 0 && matches!(st, St::Equal | St::HtlcCpOnly))) {
+                            bases.push(Case { st: *st, outbound, anchors, upfront, phase1, devs: vec![], onchain: true });
+                        }
                     }
                 }
             }
